@@ -1,6 +1,8 @@
 package c13
 
 import (
+	"bytes"
+	"crypto/sha1"
 	"fmt"
 	"math"
 	"reflect"
@@ -649,7 +651,7 @@ type frontierItem struct {
 type bfsState struct {
 	wk       *wkind
 	frontier [][]int
-	seen     map[string]bool
+	seen     map[stateHash]bool
 	depth    int
 	done     bool
 	states   int64
@@ -678,8 +680,18 @@ func pathLess(a, b []int) bool {
 	return len(a) < len(b)
 }
 
+// stateHash is the de-duplication key: a 128-bit digest of the model's canonical state key.
+type stateHash [16]byte
+
+func hashKey(k string) stateHash {
+	d := sha1.Sum([]byte(k))
+	var h stateHash
+	copy(h[:], d[:16])
+	return h
+}
+
 type succ struct {
-	key  string
+	key  stateHash
 	path []int
 }
 
@@ -715,7 +727,7 @@ func expandLevel(r *core.Run, st *bfsState, workers []*workerCtx) bool {
 				continue
 			}
 			r.Outcome(out.lastRes)
-			local = append(local, succ{out.key, path})
+			local = append(local, succ{hashKey(out.key), path})
 		}
 		mu.Lock()
 		found = append(found, local...)
@@ -732,7 +744,7 @@ func expandLevel(r *core.Run, st *bfsState, workers []*workerCtx) bool {
 	}
 	sort.Slice(found, func(i, j int) bool {
 		if found[i].key != found[j].key {
-			return found[i].key < found[j].key
+			return bytes.Compare(found[i].key[:], found[j].key[:]) < 0
 		}
 		return pathLess(found[i].path, found[j].path)
 	})
@@ -812,7 +824,7 @@ func runHistories(r *core.Run, kinds []*wkind) {
 	states := make([]*bfsState, len(kinds))
 	maxDepth := 0
 	for i, wk := range kinds {
-		states[i] = &bfsState{wk: wk, frontier: [][]int{{}}, seen: map[string]bool{}}
+		states[i] = &bfsState{wk: wk, frontier: [][]int{{}}, seen: map[stateHash]bool{}}
 		d := r.Pick(wk.depthQ, wk.depthT)
 		if d > maxDepth {
 			maxDepth = d
@@ -831,7 +843,7 @@ func runHistories(r *core.Run, kinds []*wkind) {
 			states[i].done = true
 			continue
 		}
-		states[i].seen[out.key] = true
+		states[i].seen[hashKey(out.key)] = true
 		states[i].states = 1
 		r.States(1)
 	}
